@@ -26,8 +26,15 @@ class C17(Prop):
     design_ref = 'DESIGN.md §4 C17'
     technique = ('Lean 4 theorems about an executable model of the DFS numbering, the cycle check and the local-backend loop + differential '
                  'correspondence with the real Batch/LocalBackend (subprocess replaced by a scripted oracle)')
-    level_text = ''
-    level_note = ''
+    level_text = ('Proved for every finite pipeline, every iteration order of the dependency sets and every set of failing commands: an accepted '
+                  'numbering lists every job exactly once with every dependency strictly earlier (accepted_is_topological); a pipeline with a cycle is '
+                  'never accepted (cyclic_rejected); every acyclic pipeline whose dependencies are jobs of the batch is accepted (dag_accepted, '
+                  'accepted_iff_acyclic); the local backend executes the accepted order minus the skipped jobs, each once (executed_once_in_order); '
+                  'the skipped set satisfies skip j <-> not always_run j and some dependency failed or was skipped, and is contained in every set '
+                  'closed under that rule (skip_set_is_lfp); the run raises iff an executed job failed (raises_iff).')
+    level_note = ('All theorems are closed (no _partial). Partial only in the tie: the model is connected to batch.py/backend.py by the correspondence '
+                  'cases (<= 9 jobs); how depends_on/_interpolate_command build the dependency sets is checked by the oracle on the real objects, not '
+                  'modelled; shell/Docker execution is replaced by a scripted pass/fail oracle.')
     budget = {'quick': 1500, 'thorough': 40000}
     search_budget = {'quick': 4000, 'thorough': 60000}
     rule = ('case = (n <= 9 jobs created in the order 0..n-1 of a randomly relabelled graph, explicit depends_on edges, resource-induced '
